@@ -593,6 +593,8 @@ def replay_behaviour(ctx, consts, s0, steps, seed, variants=None):
         if ok:
             ctx.count("impl-runs-agreeing-with-model:" + vname)
             ctx.count("calls-compared-with-model", box.get("ncmp", 0))
+            if nrep >= 1 and vname == "single":
+                ctx.count("impl-runs-agreeing-with-model:single:NREP>=1")
         if vname == "single":
             base_ok = ok
     return base_ok
@@ -696,7 +698,8 @@ def finalize(ctx, tier, seed):
     assert len(ctx.outcomes) > 1, len(ctx.outcomes)
     # if the implementation agreed with the model on many behaviours, its observed traces must be as diverse as the model's
     agreed = ctx.counters.get("impl-runs-agreeing-with-model:single", 0)
-    assert agreed < 100 or len(ctx.outcomes) > 100, (agreed, len(ctx.outcomes))
+    agreed1 = ctx.counters.get("impl-runs-agreeing-with-model:single:NREP>=1", 0)
+    assert agreed1 < 100 or len(ctx.outcomes) > 100, (agreed1, len(ctx.outcomes))
     assert agreed == 0 or ctx.counters.get("calls-compared-with-model", 0) > 0
     if agreed == ctx.counters.get("tlc-behaviours"):      # everything agreed: on average a behaviour has >= 10 observable calls
         assert ctx.counters.get("calls-compared-with-model", 0) > 10 * agreed
